@@ -135,6 +135,8 @@ class Flow:
     def run(self, f: Func, env, share=False):
         saved = self.returns
         self.returns = []
+        saved_y = getattr(self, "yielded", None)
+        self.yielded = None
         if not share:
             env = dict(env)
         self.cur.append(f)
@@ -143,6 +145,10 @@ class Flow:
         finally:
             self.cur.pop()
         rets = self.returns
+        if self.yielded is not None:
+            # a generator hands back everything it yields, in order: the same content as a list built with append and returned
+            rets = rets + [(f.node, self._ctrl(self.yielded), ())]
+        self.yielded = saved_y
         self.returns = saved
         return rets
 
@@ -250,6 +256,11 @@ class Flow:
     def ev(self, e, env) -> AV:
         if isinstance(e, ast.Constant) and e.value is None:
             return NONE_AV
+        if isinstance(e, (ast.Yield, ast.YieldFrom)):
+            v = self.ev(e.value, env) if e.value is not None else EMPTY
+            cur = getattr(self, "yielded", None)
+            self.yielded = v if cur is None else cat(cur, v)
+            return EMPTY
         if e is None or isinstance(e, ast.Constant):
             return EMPTY
         if isinstance(e, ast.Name):
